@@ -29,7 +29,7 @@ META = dict(
         quick='panels P1, P11, P12 (multi-digit ids, two geos with tied '
         'means); 6 transformations; symbolic: budget, share, volume '
         'tolerance, treatment size range, n_geos_max (one at a time); 3 '
-        'eligibility tables; both searches; 2^k in {2^3, 2^10, 2^-4, 2^-45}; '
+        'eligibility tables; both searches; 2^k in {2^3, 2^10, 2^-4}; '
         'P13 = P1 with a duplicated (geo, date) cell',
         thorough='adds P3, pairs of symbolic constraints, more '
         'seeded permutations'),
@@ -40,7 +40,7 @@ META = dict(
 )
 
 TRANSFORMS = ['shuffle', 'dateshift', 'str_ids', 'rename_reverse', 'scale',
-              'shuffle+rename']
+              'shuffle+rename', 'reverse']
 
 
 def transform(ctx, name, seed, scale_pow=3):
@@ -50,7 +50,9 @@ def transform(ctx, name, seed, scale_pow=3):
   id_map = {str(g): str(g) for g in ids}
   c = 1.0
   for part in name.split('+'):
-    if part == 'shuffle':
+    if part == 'reverse':
+      df = df.iloc[::-1].reset_index(drop=True)
+    elif part == 'shuffle':
       df = df.sample(frac=1.0, random_state=seed + 11).reset_index(drop=True)
     elif part == 'dateshift':
       df['date'] = df['date'] + pd.Timedelta(days=[1, 365, -17][seed % 3])
@@ -199,13 +201,18 @@ def jobs(tier, seed):
       for t in TRANSFORMS:
         for sym in syms:
           for i, el in enumerate(_eligs(panel)):
+            if panel == 'P13' and (t not in ('shuffle', 'reverse') or sym not
+                                   in (['vol'], ['tsize']) or i != 0):
+              continue   # duplicated cell: row-order transformations only
+            if t == 'reverse' and panel != 'P13':
+              continue
             if tier == 'quick' and (i == 1 or (panel != 'P1' and i == 2 and
                                                sym != ['ngm'])):
               continue
             if panel != 'P1' and m == 'exhaustive' and sym == [
                 'budget'] and (el is None or tier == 'quick'):
               continue   # 4-geo exhaustive budget cells: too many paths
-            pw = [3, 10, -4, -45][(len(out)) % 4]
+            pw = [3, 10, -4][(len(out)) % 3]
             name = '%s-%s-%s-%s-e%d' % (panel, m, t, '+'.join(sym), i)
             out.append(dict(func='pair_job', name=name, weight=(
                 20 if panel != 'P1' else 0) + (10 if sym == ['budget'] else 0),
